@@ -116,6 +116,8 @@ var asgUniverse = []string{
 	"(st int)", "(nm 0 S (st int))", "(p (nm 0 S (st int)))", "(p (st int))", "(ch int)", "(nm 0 C (ch int))", "func",
 	"(nm 0 F func)", "(m string int)", "(nm 0 M (m string int))", "(nm 1 A (sl int))", "(ar 2 (sl int))",
 	"(nm 0 %C3%84 (sl int))",
+	// channel directions: `chan int` can be passed for `<-chan int` / `chan<- int`, not the other way round
+	"(chr int)", "(chs int)", "(nm 0 CR (chr int))", "(chr (ch int))",
 }
 
 // interface types next to types that implement them (0b79109: a type that merely implements an interface
@@ -320,6 +322,7 @@ func T3Lines(r *rand.Rand, thorough bool) ([]string, T3Stats) {
 	g.random("tm-rnd-asg", asgUniverse, 3000*n)
 	g.random("tm-rnd-iface", ifaceUniverse, 3000*n)
 	g.exhaustive("tm-exh-iface", []string{"error", "(p (nmm 0 MyErr (st int) Error))", "iface"}, k-1)
+	g.exhaustive("tm-exh-chan", []string{"(ch int)", "(chr int)", "(nm 0 C (ch int))"}, k)
 	g.sorts(400 * n)
 	g.eqs(1000 * n)
 	g.imports(300 * n)
